@@ -94,6 +94,15 @@ def make_arg(case):
         return text, obs.observe(text)
     if pattern == "uniform":
         spec = [[text, {"fg": 34, "underline": True}]]
+    elif pattern == "uniform+empty":
+        # one formatting for every character, held in one run per character, with empty runs of
+        # another formatting in between (also in the middle of whitespace)
+        spec = []
+        for ch in text:
+            spec.append([ch, {"fg": 34, "underline": True}])
+            spec.append(["", {"bg": 45, "invert": True}])
+        if not spec:
+            spec = [["", {}]]
     else:
         k = 1 if pattern in ("every1", "every1+empty") else 2
         spec = [[text[i:i + k], dict(obs.PALETTE[(i // k + 1) % len(obs.PALETTE)])]
@@ -171,7 +180,7 @@ def _show(line):
     return "".join(obs.show(cs) if k == "w" else "<sp:%s>" % obs.show(cs) for k, cs in line)
 
 
-PATTERNS = ["str", "uniform", "every1", "every2", "every1+empty"]
+PATTERNS = ["str", "uniform", "every1", "every2", "every1+empty", "uniform+empty"]
 
 
 def run(ctx):
